@@ -73,6 +73,53 @@ def write_snapshot(name, block, pack, confid, rev, rel, en, co, cfgv, logv, pack
     stub.do_snapshot(name)
 
 
+def long_session(rng, n_snaps):
+    """one shell session that logs through the shell's own `logfile` command and takes `n_snaps` snapshots (more than a
+    megabyte of log): every one of them parses back from the file the command was given"""
+    from geckolib.utils.shell import GeckoShell
+    from geckolib.utils.snapshot import GeckoSnapshot
+    path = os.path.join(env.outdir("c19"), "long-session.log")
+    for f in glob.glob(path + "*"):
+        os.remove(f)
+    sh = GeckoShell.__new__(GeckoShell)
+    sh.file_logger = None
+    root = logging.getLogger()
+    old_level, old_disable = root.level, logging.root.manager.disable
+    logging.disable(logging.NOTSET)
+    expect = []
+    try:
+        with contextlib.redirect_stdout(io.StringIO()):
+            sh.do_logfile(path)
+        _SHELL["shell_saved"] = _SHELL.get("shell")
+        _SHELL["shell"] = sh
+        for i in range(n_snaps):
+            block = bytes(rng.randrange(256) for _ in range(1024))
+            name = f"session snapshot {i}"
+            write_snapshot(name, block, "inYT", 1, 2, 3, (i + 1, 2, 3), (4, 5, 6), 7, 8)
+            expect.append((name, block))
+    finally:
+        if sh.file_logger is not None:
+            root.removeHandler(sh.file_logger)
+            sh.file_logger.close()
+        root.setLevel(old_level)
+        logging.disable(old_disable)
+        if _SHELL.get("shell_saved") is not None:
+            _SHELL["shell"] = _SHELL.pop("shell_saved")
+        else:
+            _SHELL.pop("shell", None)
+            _SHELL.pop("shell_saved", None)
+    try:
+        snaps = GeckoSnapshot.parse_log_file(path)
+        got = {s.name: bytes(s.bytes or b"") for s in snaps}
+    except Exception:  # noqa
+        got = {}
+    ok = sum(1 for (n_, b_) in expect if got.get(n_) == b_)
+    size = sum(os.path.getsize(f) for f in glob.glob(path + "*"))
+    for f in glob.glob(path + "*"):
+        os.remove(f)
+    return {"kind": "session", "expected": n_snaps, "parsed_back": ok, "bytes_logged": size}
+
+
 def snap_rec(s):
     try:
         return {"name": s.name or "", "en": list(s.intouch_EN), "co": list(s.intouch_CO), "pack": s.packtype or "",
@@ -141,6 +188,8 @@ def run(ctx):
            {"name": "two", "en": [9, 2, 3], "co": [4, 5, 9], "pack": "inXM", "cfg": 9, "log": 10, "bytes": list(bl[3])}]
     recs.append({"kind": "snap", "expect": exp, "parsed": parse_text(buf.getvalue(), "two"), "lines": "B|N|B"})
     meta.append("two blocks")
+    recs.append(long_session(rng, 140 if ctx.quick else 400))
+    meta.append("long session through the shell's logfile command")
     # ---- 2. traffic log of a connection ------------------------------------------------
     from geckolib.utils.snapshot import GeckoSnapshot
     default = GeckoSnapshot.parse_log_file(os.path.join(env.REPO, "tests", "snapshots", "default.snapshot"))[0]
@@ -263,6 +312,9 @@ def run(ctx):
             sig["stack"] = r_["stack"]
             sig["lossy"] = r_["lossy"]
             det.update({"connected": r_["connected"], "bytes_len": len(r_["bytes"]), "served_len": len(r_["served"])})
+        elif r_["kind"] == "session":
+            sig["session"] = "long"
+            det.update(r_)
         else:
             det.update({"lines": r_["lines"], "parsed": [{k: v for k, v in p.items() if k != "bytes"} for p in r_["parsed"]],
                         "parsed_bytes_len": [len(p["bytes"]) for p in r_["parsed"]]})
